@@ -42,7 +42,10 @@ HOSTILE = ["<", ">", "&", '"', "'", "<b>", "</p>", "<script>alert(1)</script>", 
            "&#60;", "<!--", "]]>", "\u00e9 \u00fc \u4e2d", "a<b", 'say "x" & <i>y</i>', "x > y", "AT&T",
            "-->", "<a href=\"u\">", "1 < 2", "&nbsp;", "caf\u00e9", "'q'",
            # characters beyond the basic multilingual plane (escape-high-chars must cover them too)
-           "\U0001d538 < \U0001f600", "\U0001f600"]
+           "\U0001d538 < \U0001f600", "\U0001f600",
+           # letters the source writes with accent commands (\'a \'o \"o \`a \~n \c{c}): the same command with
+           # different base letters, next to a literal accented letter
+           "\u00e1 \u00f3 < \u00f6", "d\u00e9j\u00e0 \u00f1 & \u00e7\u00e1"]
 # shapes the image post-processor's placeholder regex can match
 MAGIC = ["&x-width;", "&lt-width;", "&x-depth;&pt;", "&a-height;"]
 PLAIN = ["plain", "word"]
